@@ -47,7 +47,7 @@ func genC07(t *rapid.T) HistCase {
 				{Name: "auth-url-default", Keys: []annChoice{{"auth-url", targets}}},
 			}
 		case "basic-auth":
-			p.Bundles = []annBundle{{Name: "basic-auth", Keys: []annChoice{{"auth-type", []string{"basic"}}, {"auth-secret", []string{"pw", "pw", "pw", "pw2", "missing"}}}}}
+			p.Bundles = []annBundle{{Name: "basic-auth", Keys: []annChoice{{"auth-type", []string{"basic"}}, {"auth-secret", []string{"pw", "pw", "pw", "pw2", "missing", "pw3"}}}}}
 		case "oauth":
 			p.Bundles = []annBundle{
 				{Name: "oauth", Keys: []annChoice{{"oauth", []string{"oauth2_proxy"}}}, Path: "/oauth2"},
@@ -61,7 +61,8 @@ func genC07(t *rapid.T) HistCase {
 		p.MinIng, p.MaxIng = 4, 8
 		// one namespace, own host and (mostly) own service per ingress: the ingresses are linked by the feature only
 		p.NS = p.NS[:1]
-		p.Sparse = true
+		// (a third of the churn worlds share services, so that one backend carries paths with different auth targets)
+		p.Sparse = chanceT(t, "churnsparse", 65)
 		p.Svcs = []string{"s1", "s2", "s3", "s4", "s5", "s6"}
 		p.EmptyHost, p.DefBackend, p.MultiTLS = false, false, false
 		p.IngDeletePct = 30
